@@ -220,3 +220,112 @@ def oracle_key_notes(key):
     assert out[0] == key[0].upper() + key[1:], (key, out)
     assert [(pcs[(i + 1) % 7] - pcs[i]) % 12 for i in range(7)] == pat, (key, out)
     return out, s
+
+
+# ---------------------------------------------------------------------------- offset domain (E3)
+class NoteVal:
+    """A note name of known letter whose pitch class is a linear form (mod 12); the spelling is whatever the
+    correction helper produces (<= 6 unmixed accidentals, by R-C02-2)."""
+
+    def __init__(self, head, pitch):
+        self.head = head
+        self.pitch = Lin.of(pitch)
+
+    def a_index(self, interp, idx, node):
+        if idx == 0:
+            return self.head
+        raise CannotDecide("index %r into the spelling of %r" % (idx, self))
+
+    def a_eq(self, interp, other):
+        return None  # spelling unknown
+
+    def __repr__(self):
+        return "NoteVal(%s, %s)" % (self.head, self.pitch)
+
+
+def pitch_lin(it, x):
+    if isinstance(x, NoteVal):
+        return x.pitch
+    head, net, _ = decompose(x, it)
+    if not isinstance(head, str) or head not in NAT:
+        raise CannotDecide("pitch of %r" % (x,))
+    return Lin.of(NAT[head]) + net
+
+
+def head_of(it, x):
+    if isinstance(x, NoteVal):
+        return x.head
+    return decompose(x, it)[0]
+
+
+def interval_model(repo):
+    """Summaries that put the interval constructors into the offset domain.  Justified by C01/C02/C04 rules."""
+    M = "mingus.core.intervals"
+    N = "mingus.core.notes"
+    K = "mingus.core.keys"
+    nmod = repo.mod(N)
+
+    def get_notes(it, args, kwargs, node):
+        key = args[0] if args else kwargs.get("key", "C")
+        if isinstance(key, str):
+            try:
+                return list(oracle_key_notes(key)[0])
+            except KeyError:
+                from .absint import RaiseEx
+                raise RaiseEx("NoteFormatError", node)
+        raise CannotDecide("keys.get_notes(%r)" % (key,))
+
+    def helper(it, args, kwargs, node):
+        if len(args) != 3:
+            raise CannotDecide("helper called with %d arguments" % len(args))
+        n1, n2, iv = args
+        h = head_of(it, n2)
+        if not isinstance(iv, int) or not isinstance(h, str) or h not in LETTERS:
+            raise CannotDecide("helper called with %r" % (args,))
+        return NoteVal(h, pitch_lin(it, n1) + iv)
+
+    def shift(k, fname):
+        def f(it, args, kwargs, node):
+            x = args[0]
+            if isinstance(x, NoteVal):
+                return NoteVal(x.head, x.pitch + k)
+            return it.call_function(nmod.func(fname), args, kwargs, node)
+        return f
+
+    def valid(it, args, kwargs, node):
+        x = args[0]
+        if isinstance(x, NoteVal):
+            return True
+        return it.call_function(nmod.func("is_valid_note"), args, kwargs, node)
+    return {K + ".get_notes": get_notes,
+            M + ".augment_or_diminish_until_the_interval_is_right": helper,
+            N + ".augment": shift(1, "augment"), N + ".diminish": shift(-1, "diminish"),
+            N + ".is_valid_note": valid}
+
+
+def rel(it, value, root_letter, root_pitch):
+    """(letters up, semitones up mod 12) of an abstract note relative to the root, or a string describing why not."""
+    try:
+        h = head_of(it, value)
+        p = pitch_lin(it, value)
+    except (Shape, CannotDecide) as e:
+        return "not a note name: %s" % e
+    if not isinstance(h, str) or h not in LETTERS:
+        return "letter %r" % (h,)
+    d = it.resolve(p - Lin.of(root_pitch))
+    lo, hi = it.lin_interval(d)
+    if lo != hi:
+        return "pitch %s is not the root plus a constant" % d
+    return ((LETTERS.index(h) - LETTERS.index(root_letter)) % 7, int(lo) % 12)
+
+
+def degree(tok):
+    """'b3' -> (2, 3); '#4' -> (3, 6); 'bb7' -> (6, 9); 9/11/13 = 2/4/6."""
+    acc = tok.rstrip("0123456789")
+    n = int(tok[len(acc):])
+    n = {9: 2, 11: 4, 13: 6}.get(n, n)
+    return (n - 1, (MAJOR_SIZES[n - 1] + acc.count("#") - acc.count("b")) % 12)
+
+
+def formula(text):
+    return [degree(t) for t in text.split()]
